@@ -1,4 +1,5 @@
 import LokiModel.C08.Main
+import LokiModel.C08.Flat
 import LokiModel.C08.Bridge
 import LokiModel.C08.Beq
 /-!
@@ -7,16 +8,15 @@ import LokiModel.C08.Beq
 Model: `simp k fl fuel t` (`LokiModel/C08/Model.lean`) mirrors `SimplifyMapper` and its helpers function by function
 (checked against the real `simplify` on every run, tree for tree).  `k : K` carries the string-dependent Python
 operations (the re-entry test `new_expr != expr`, dict-key equality, `sorted(key=str)`) and the switch `strict`;
-with `strict = true` the model stops (`none`) at the three steps that are wrong for integers — the family of the
-open findings — and is otherwise the same function (the driver checks on every input that both agree whenever
+with `strict = true` the model stops (`none`) at the steps that are wrong for integers (quotient distribution in
+`distribute_product` / `distribute_quotient`, the family of the open finding) and is otherwise the same function (the driver checks on every input that both agree whenever
 the strict one answers).  Values: `evalS env (den t)` of the shared expression layer (truncating integer division).
 
 The full statement is false of the code (`C08_full`, refuted in `LokiModel/Findings/C08.lean`).  Proved here:
-for **every** re-entry test, every fuel, the flag sets without `Flatten`, `CollectCoefficients`,
-`FloatingPointArithmetic` (∅, IntegerArithmetic, LogicEvaluation, both), every tree of unbounded size without real
-literals whose n-ary nodes have ≥ 2 operands, and every valuation without real-valued variables: if the tree has a
-value, the simplified tree has the same value.  For the flag sets with `Flatten` the same is proved *given*
-soundness of `flatten_expr` in strict mode (`C08_partial_given_flatten`; that lemma is not proved yet).
+for **every** re-entry test, every fuel, the 8 flag sets without `CollectCoefficients` and
+`FloatingPointArithmetic` (all subsets of Flatten, IntegerArithmetic, LogicEvaluation), every tree of unbounded size
+without real literals whose n-ary nodes have ≥ 2 operands, and every valuation without real-valued variables: if the
+tree has a value, the simplified tree has the same value.
 -/
 namespace LokiModel.C08
 open LokiModel.Expr LokiModel.C06
@@ -33,38 +33,34 @@ theorem transfer {env : Env} (hI : IntEnv env) {t t' : E} (hr : noRlit t = true)
   · exact (back_all env t').1 i (h.1 i hi)
   · exact (back_all env t').2 b (h.2 b hb)
 
-/-- **C08, partial** (flag sets ⊆ {IntegerArithmetic, LogicEvaluation}; integer trees): whatever the re-entry test and
-the fuel, if the strict model returns `t'` then `t'` has the value of `t` under every valuation without real-valued
-variables under which `t` has a value.  Covers `sum_literals`, `separate_coefficients`, `mul_literals`,
-`div_literals` (gcd reduction, sign normalisation under truncating division), `map_power`, `map_comparison`,
-`map_logical_and/or/not`, the re-entry, unbounded trees.  Missing for the full statement: `Flatten`,
-`CollectCoefficients`, `FloatingPointArithmetic`, real-typed operands. -/
-theorem C08_partial (k : K) (hk : k.strict = true) (fl : Flags) (hf : fl.flatten = false) (hc : fl.collect = false)
+/-- **C08, partial** (the 8 flag sets without `CollectCoefficients` and `FloatingPointArithmetic`; integer trees):
+whatever the re-entry test and the fuel, if the strict model returns `t'` then `t'` has the value of `t` under every
+valuation without real-valued variables under which `t` has a value.  Covers `flatten_expr` / `distribute_product`
+(distribution of products over sums, elimination of `-1` pairs, dropped zero terms) and the sign normalisation of
+`distribute_quotient`, `sum_literals`, `separate_coefficients`, `mul_literals`, `div_literals` (gcd reduction, sign
+normalisation under truncating division), `map_power`, `map_comparison`, `map_logical_and/or/not`, the re-entry,
+unbounded trees.  Strict mode excludes exactly the distribution of integer quotients (open finding).  Missing for the
+full statement: `CollectCoefficients`, `FloatingPointArithmetic`, real-typed operands. -/
+theorem C08_partial (k : K) (hk : k.strict = true) (fl : Flags) (hc : fl.collect = false)
     (fuel : Nat) (t t' : E) (h : simp k fl fuel t = some t')
     (env : Env) (hI : IntEnv env) (hr : noRlit t = true) (hw : wf2 t = true)
     (v : Val) (hv : evalS env (den t) = some v) : evalS env (den t') = some v :=
-  transfer hI hr hw (simp_sound k hk fl hc (fun h' => by rw [hf] at h'; cases h') fuel t t' h (envOf env)) hv
-
-/-- the same for the flag sets with `Flatten`, *assuming* that `flatten_expr` (strict mode: no quotient is
-distributed) preserves integer values — the lemma that is still missing -/
-theorem C08_partial_given_flatten
-    (hF : ∀ (ρ : IEnv) f e e', flattenExpr true f e = some e' → RefA ρ e e')
-    (k : K) (hk : k.strict = true) (fl : Flags) (hc : fl.collect = false)
-    (fuel : Nat) (t t' : E) (h : simp k fl fuel t = some t')
-    (env : Env) (hI : IntEnv env) (hr : noRlit t = true) (hw : wf2 t = true)
-    (v : Val) (hv : evalS env (den t) = some v) : evalS env (den t') = some v :=
-  transfer hI hr hw (simp_sound k hk fl hc (fun _ => hF) fuel t t' h (envOf env)) hv
+  transfer hI hr hw (simp_sound k hk fl hc (fun _ => flattenExpr_sound) fuel t t' h (envOf env)) hv
 
 /-! ### the helper functions, one statement each (integer reading, every valuation, every fuel) -/
 
 theorem C08_sum_literals_sound (ρ : IEnv) (f : Nat) (e e' : E) (h : sumLiterals f e = some e') : RefA ρ e e' :=
   sumLiterals_sound f e e' h
-theorem C08_mul_literals_sound (ρ : IEnv) (f : Nat) (e e' : E) (h : mulLiterals true f e = some e') : RefA ρ e e' :=
+theorem C08_mul_literals_sound (ρ : IEnv) (f : Nat) (e e' : E) (h : mulLiterals f e = some e') : RefA ρ e e' :=
   mulLiterals_sound f e e' h
-theorem C08_div_literals_sound (ρ : IEnv) (f : Nat) (e e' : E) (h : divLiterals true f e = some e') : RefA ρ e e' :=
+theorem C08_div_literals_sound (ρ : IEnv) (f : Nat) (e e' : E) (h : divLiterals f e = some e') : RefA ρ e e' :=
   divLiterals_sound f e e' h
+theorem C08_flatten_expr_sound (ρ : IEnv) (f : Nat) (e e' : E) (h : flattenExpr true f e = some e') : RefA ρ e e' :=
+  flattenExpr_sound ρ f e e' h
+theorem C08_distribute_product_sound (ρ : IEnv) (f : Nat) (e e' : E) (h : distributeProduct true f e = some e') :
+    RefA ρ e e' := distributeProduct_sound f e e' h
 theorem C08_separate_coefficients_sound (ρ : IEnv) (f : Nat) (e : E) (r : Int × List E)
-    (h : sepCoeff true f e = some r) (a : Int) (ha : aval ρ e = some a) :
+    (h : sepCoeff f e = some r) (a : Int) (ha : aval ρ e = some a) :
     ∃ b, aprod ρ r.2 = some b ∧ a = r.1 * b :=
   sepCoeff_sound f e r h a ha
 /-- the integer reading is the reference semantics of the shared layer -/
@@ -85,9 +81,18 @@ example : (simp (kEq true) ⟨false, true, false, true⟩ 12
                      (.pow false (.ilit 2) (.ilit 3)), .blit true])).map
     (beqE · (.land [.cmp .lt (.quot false (.var "a") (.var "b")) (.ilit 8)])) = some true := by decide
 
+/-- `a * (b - c) * (n + 1)` with Flatten | IntegerArithmetic: the strict model answers (a sum of four products) -/
+example : (simp (kEq true) ⟨true, true, false, false⟩ 20
+    (.prod false [.var "a", .sum false [.var "b", .prod false [.pyint (-1), .var "c"]],
+                  .sum false [.var "n", .ilit 1]])).isSome = true := by decide
+
 /-- the hypotheses on the tree and the valuation are satisfiable together with a defined value -/
 example : noRlit (.quot false (.prod false [.ilit 6, .var "a"]) (.ilit 4)) = true ∧
     wf2 (.quot false (.prod false [.ilit 6, .var "a"]) (.ilit 4)) = true := by decide
 example : IntEnv ⟨fun _ => some (.int 3), fun _ => 0⟩ := by intro x q h; cases h
+
+/-- regression (fixed finding `separate-coefficients-drops-factors`): all operands of a minus-prefixed factor are kept -/
+example : (sepCoeff 6 (.prod false [.var "b", .prod false [.pyint (-1), .var "c", .var "n"]])).map
+    (fun r => (r.1, beqEs r.2 [.var "b", .prod false [.var "c", .var "n"]])) = some (-1, true) := by decide
 
 end LokiModel.C08
